@@ -9,6 +9,22 @@ def run_impl(line):
     return chanimpl.run_case(line)
 
 
+def lean_line(line):
+    """what the Lean side sees: a regex the harness compiles with re.IGNORECASE (`I…`) becomes the equivalent
+    case-sensitive regex (`X…`, classes closed under ASCII case) — flags are not part of the model"""
+    import regen
+    toks = line.split()
+    return " ".join(toks[:4] + [":".join(regen.fold_field(f) for f in t.split(":")) for t in toks[4:]])
+
+
+def model_request(line, impl):
+    return KIND + " " + lean_line(line)
+
+
+def spec_line(line):
+    return lean_line(line)
+
+
 def ops_of(line):
     return line.split()[4:]
 
